@@ -95,6 +95,11 @@ META = {
         "Pyoda.C08.dtValueE_valid",
         "Pyoda.C08.parseSegmented_valid",
         "Pyoda.C08.datetime_segmented_success_valid",
+        "Pyoda.C08.compileLoopDT_inv",
+        "Pyoda.C08.compileSegmented_segWF",
+        "Pyoda.C08.compileDateTime_segWF",
+        "Pyoda.C08.datetime_success_valid_all",
+        "Pyoda.C08.instant_success_valid_all",
     ],
     "trusted_base": [
         "str indexing inside _ValueCursor is guarded by the cursor's own length checks (modelled as list operations)",
@@ -102,8 +107,8 @@ META = {
     "partial": [
         "parse_total / success_valid are proved for the modelled parsers only (numeric primitives; ISO date, ISO times, ISO date-times incl. 24:00 roll-over, offset g/G), which model the REPAIRED behaviour (year range check in the ISO fast path, Offset range check, OverflowError of plus_days mapped to a failure, end-of-text by index); on the unrepaired tree the correspondence suite text.iso.parse and the direct oracles report the four defects",
         "pattern creation: compile_total is proved for EVERY pattern text of LocalTime, LocalDate (ISO template), Offset, LocalDateTime (ISO template value; embedded ld<...>/lt<...> patterns included: Pat.segmented), AnnualDate (any template) and Duration patterns, and for the Instant adapter (compileInstant_total) — custom texts, standard letters, Z prefix, composites — tied to the real builders by suite text.pat.compile (outcome class, used-field mask, number of actions); the sample formatting done at construction and non-ISO template calendars are covered by the malformed-pattern oracle only",
-        "generic engine (tied to the code by suites text.pat.compile/fmt/parse): parse_total and success_value_valid hold for EVERY accepted LocalTime, Offset and Duration pattern text in every culture record (time_/offset_/duration_parse_total, time_/offset_/duration_success_valid: a Duration success lies between min_value and max_value) and for EVERY accepted AnnualDate pattern text and template (annual_parse_total; annual_success_valid under monthHeadsEmpty); success_value_valid holds for EVERY accepted LocalDate pattern text (default template) and every accepted LocalDateTime / Instant pattern text WITHOUT embedded parts (any valid ISO template value; 24:00 roll-over included) in every culture record whose month-name tables start with the empty entry of index 0 (date_success_valid, datetime_success_valid, instant_success_valid; hypothesis monthHeadsEmpty evaluated per run on the sampled cultures, failing cultures listed in the notes); parse_total for LocalDate/LocalDateTime/Instant holds for every compiled pattern without the calendar field (date_parse_total, datetime_parse_total: era, month/day names, am/pm and embedded ld<...>/lt<...> patterns included: parseSegmented_total)",
-        "LocalDateTime/Instant patterns WITH embedded parts (Pat.segmented): success_value_valid is proved for every segmented pattern passing the decidable check segWF (parseSegmented_valid / datetime_segmented_success_valid: plain steps and embedded patterns well formed, used fields accounted for, an embedded date/time present where its field bit is set and no plain step assigning its slots); that compileDateTime only builds patterns passing segWF is established by EVALUATION of segWF by the compiled model on every segmented pattern of the run (op pat.wf = 2; a 0 is an infrastructure error), not by a theorem",
+        "generic engine (tied to the code by suites text.pat.compile/fmt/parse): parse_total and success_value_valid hold for EVERY accepted LocalTime, Offset and Duration pattern text in every culture record (time_/offset_/duration_parse_total, time_/offset_/duration_success_valid: a Duration success lies between min_value and max_value) and for EVERY accepted AnnualDate pattern text and template (annual_parse_total; annual_success_valid under monthHeadsEmpty); success_value_valid holds for EVERY accepted LocalDate pattern text (default template) and every accepted LocalDateTime / Instant pattern text (any valid ISO template value; 24:00 roll-over included; embedded parts: next item) in every culture record whose month-name tables start with the empty entry of index 0 (date_success_valid, datetime_success_valid, instant_success_valid; hypothesis monthHeadsEmpty evaluated per run on the sampled cultures, failing cultures listed in the notes); parse_total for LocalDate/LocalDateTime/Instant holds for every compiled pattern without the calendar field (date_parse_total, datetime_parse_total: era, month/day names, am/pm and embedded ld<...>/lt<...> patterns included: parseSegmented_total)",
+        "LocalDateTime/Instant patterns WITH embedded parts (Pat.segmented): success_value_valid is proved for every segmented pattern passing the decidable check segWF (parseSegmented_valid: plain steps and embedded patterns well formed, used fields accounted for, an embedded date/time present where its field bit is set and no plain step assigning its slots) and creation only builds such patterns (compileSegmented_segWF, compileDateTime_segWF), hence datetime_success_valid_all / instant_success_valid_all: EVERY accepted LocalDateTime / Instant pattern text, embedded parts or not, any valid ISO template value, under the culture hypothesis monthHeadsEmpty; segWF is also evaluated by the compiled model on every segmented pattern of the run (op pat.wf = 2; a 0 is an infrastructure error)",
         "NOT covered by theorems: the calendar field on texts naming a calendar other than ISO, non-ISO calendars and template values, the Instant <-> UTC date-time conversion of the adapter, str.lower() beyond ASCII, ICU culture data extraction; exceptions originating in ICU or in culture construction are outside the model",
     ],
     "rule": "distinct = distinct (pattern, culture, text) triple / pattern text; non-trivial = the pattern exists and parse was invoked (creation stream: creation was attempted)",
